@@ -28,9 +28,24 @@ def take_outside_calls():
 
 
 class Injected(Exception):
-    def __init__(self, tag):
+    """An injected component failure.  Raising one is recorded in the harness side channel
+    together with the phase it happened in (inside an evaluator's evaluate() or not)."""
+
+    def __init__(self, tag, _replay=False):
         super().__init__(tag)
         self.tag = tag
+        if not _replay:
+            import sys
+            f, phase = sys._getframe(1), "other"
+            while f is not None:
+                if f.f_code.co_name == "evaluate":
+                    phase = "eval"
+                    break
+                f = f.f_back
+            _record("injected", tag, phase)
+
+    def __reduce__(self):
+        return (Injected, (self.tag, True))
 
 
 # ----------------------------------------------------------------------------- learners
@@ -136,6 +151,30 @@ class FaultyLearner:
             if self.n_learn == self.k:
                 raise Injected(f"learn:{self.tag}")
         self.n_learn += 1
+
+
+class InfoLearner:
+    """Publishes values through CobaContext.learning_info (which evaluators move into the rows);
+    optionally fails in learn right after having published in predict."""
+
+    def __init__(self, tag="i", every=1, raise_at=None):
+        self.tag, self.every, self.raise_at = tag, every, raise_at
+        self.n = 0
+
+    @property
+    def params(self):
+        return {"family": "Info", "tag": self.tag, "every": self.every}
+
+    def predict(self, context, actions):
+        from coba.context import CobaContext
+        if self.n % self.every == 0:
+            CobaContext.learning_info["published"] = f"{self.tag}:{self.n}"
+        return actions[self.n % len(actions)], 1.0
+
+    def learn(self, context, action, reward, probability):
+        if self.raise_at is not None and self.n == self.raise_at:
+            raise Injected(f"learn:{self.tag}")
+        self.n += 1
 
 
 class RecordingLearner:
